@@ -325,7 +325,9 @@ func checkFetchRequested(s *sim, op Op, before viewKey) {
 		}
 		live := false
 		for _, o := range s.fetchOpen {
-			if o.H == s.vv.Height && o.Hash == hash && o.Ctx.Err() == nil {
+			// the node tracks in-flight fetches by block hash only; a request made for the same hash at an
+			// earlier height (possible for bogus hashes only: a block hash covers its height) still counts
+			if o.Hash == hash && o.Ctx.Err() == nil {
 				live = true
 			}
 		}
